@@ -68,5 +68,7 @@ func TestGowpReplayC13(t *testing.T) {
 `
 
 func init() {
+	replayers["C13|fast.exec$1"] = &replayer{pkg: "fast", test: "TestGowpReplayC13", kind: "search", source: func(map[string]string, string) string { return replayC13 }}
+	replayers["C13|fast.reExecWithFlags"] = &replayer{pkg: "fast", test: "TestGowpReplayC13", kind: "search", source: func(map[string]string, string) string { return replayC13 }}
 	replayers["C13|*"] = &replayer{pkg: "fast", test: "TestGowpReplayC13", kind: "search", source: func(map[string]string, string) string { return replayC13 }}
 }
